@@ -103,6 +103,8 @@ def _impl(args):
     wn = wnenv.wn
     from wn.util import ProgressHandler
     rng = random.Random(sc['seed'])
+    # the documented switch for sharing the connection between threads must not change atomicity
+    wn.config.allow_multithreading = (sc['seed'] % 3 == 0)
     results = []
     try:
         base_dir = wnenv.fresh_db()
@@ -303,6 +305,7 @@ def _impl(args):
         import traceback
         return [{'kind': 'harness-exception', 'exception': repr(e), 'tb': traceback.format_exc()[-1500:]}]
     finally:
+        wn.config.allow_multithreading = False
         wnenv.cleanup()
 
 
